@@ -937,6 +937,13 @@ def adoption_loops(ctx):
         for c in ast.walk(w.test):
             if isinstance(c, ast.Compare) and isinstance(c.left, ast.Name) and "ounter" in c.left.id and isinstance(c.comparators[0], ast.Constant):
                 counters[c.left.id] = (w, type(c.ops[0]).__name__, c.comparators[0].value)
+    # the same loops written as `for <counter> in range(a, b)`: b - a iterations at most
+    for lp in ast.walk(f.node):
+        if isinstance(lp, ast.For) and isinstance(lp.target, ast.Name) and "ounter" in lp.target.id and isinstance(lp.iter, ast.Call) and \
+                norm(lp.iter.func) == "range":
+            vals = [ctx.ce.try_eval(a, f.module) for a in lp.iter.args]
+            if all(isinstance(v, int) for v in vals) and 1 <= len(vals) <= 2:
+                counters[lp.target.id] = (lp, "Lt", (vals[0] if len(vals) == 1 else vals[1] - vals[0]))
     outer = [(k, v) for k, v in counters.items() if "outer" in k.lower()]
     inner = [(k, v) for k, v in counters.items() if "inner" in k.lower()]
     r.idiom("C01.15", len(outer) == 1 and outer[0][1][1:] == ("Lt", 8), "adoption-outer-loop-8", f.where,
@@ -947,8 +954,8 @@ def adoption_loops(ctx):
             "the adoption agency's inner loop stops after %s iterations (`while %s`); the standard's inner loop continues down to the "
             "formatting element and, from the fourth node on, removes the nodes it passes from the list of active formatting "
             "elements: with four or more formatting elements between the closed one and the furthest block the extra ones stay in "
-            "the list and on the stack" % (inner[0][1][2] if inner else "?", norm(inner[0][1][0].test) if inner else ""),
-            detail={"inner_loop_test": norm(inner[0][1][0].test) if inner else None})
+            "the list and on the stack" % (inner[0][1][2] if inner else "?", norm(getattr(inner[0][1][0], "test", inner[0][1][0].iter if hasattr(inner[0][1][0], "iter") else inner[0][1][0])) if inner else ""),
+            detail={"inner_loop_test": norm(getattr(inner[0][1][0], "test", None) or inner[0][1][0].iter) if inner else None})
 
 
 # ---------------------------------------------------------------------------- C01.16 attribute adjustment keeps the order
@@ -1281,8 +1288,13 @@ def fragment_state(ctx):
                 elif isinstance(v, (set, frozenset, tuple, list)):
                     names |= {x for x in v if isinstance(x, str)}
 
+    # what the chain compares: `self.innerHTML`, or a local the lower-cased container name was put in
+    import collections as _c
+    lefts = _c.Counter(norm(c.left) for t_ in ast.walk(chain[0]) if isinstance(t_, ast.If) for c in ast.walk(t_.test) if isinstance(c, ast.Compare))
+    scrutinee = lefts.most_common(1)[0][0] if lefts else "self.innerHTML"
+
     def expr_hook(node, env):
-        if norm(node) == "self.innerHTML":
+        if norm(node) in ("self.innerHTML", scrutinee):
             return env["__ctx"]
         if isinstance(node, ast.Attribute) and norm(node).startswith("self.tokenizer."):
             return Opaque(norm(node))
